@@ -1190,5 +1190,11 @@ func (p *_Loader) GetTargetOS() string {
 }
 
 func (p *_Loader) GetTargetArch() string {
+	if s := p.cfg.TargetArch; s != "" {
+		return s
+	}
+	if s := p.prog.Manifest.Pkg.TargetArch; s != "" {
+		return s
+	}
 	return config.WaArch_Default
 }
